@@ -556,12 +556,12 @@ func (fr *frame) doIf(instr *ssa.If) int {
 		}
 		return kJump
 	}
-	fr.countSym(instr)
 	if !m.cfg.NoMerge {
 		if r, ok := fr.tryMerge(instr, c); ok {
 			return r
 		}
 	}
+	fr.countSym(instr)
 	if m.branch(c) {
 		fr.jumpTo(fr.block.Succs[0])
 	} else {
@@ -636,7 +636,7 @@ func (fr *frame) specVisit(in ssa.Instruction) (ok bool) {
 	defer func() {
 		if r := recover(); r != nil {
 			switch r.(type) {
-			case goPanic, unsupported, mergeAbort, runtime.Error:
+			case goPanic, unsupported, mergeAbort, runtime.Error, string:
 				ok = false
 			default:
 				panic(r)
@@ -887,6 +887,7 @@ func (fr *frame) tryMerge(instr *ssa.If, c *Term) (int, bool) {
 		for i, g := range groups {
 			gs[i] = g.guard
 		}
+		fr.countSym(instr)
 		k = m.decide('b', gs)
 	} else {
 		m.stats.Merges++
